@@ -10,6 +10,9 @@ func init() {
 		return []*Job{
 			{Scenario: "sketch.seq", Params: js(c18Params{Mode: "increments", Caps: caps, MaxLen: maxLen}), Shards: 9, BudgetS: budget},
 			{Scenario: "sketch.seq", Params: js(c18Params{Mode: "increments", Caps: []uint64{3, 8}, MaxLen: maxLen, ResizeTo: 40}), Shards: 2, BudgetS: budget},
+			// requests that the current table already satisfies (exactly its length, one less) must change nothing
+			{Scenario: "sketch.seq", Params: js(c18Params{Mode: "increments", Caps: []uint64{3, 8, 16, 17}, MaxLen: maxLen, ResizeTo: -1}), Shards: 4, BudgetS: budget},
+			{Scenario: "sketch.seq", Params: js(c18Params{Mode: "increments", Caps: []uint64{8, 9}, MaxLen: maxLen, ResizeTo: -2}), Shards: 2, BudgetS: budget},
 			{Scenario: "sketch.seq", Params: js(c18Params{Mode: "long", Caps: caps}), Shards: 9, BudgetS: budget, Need: []string{"natural-resets"}},
 			{Scenario: "sketch.seq", Params: js(c18Params{Mode: "admit"}), Shards: 4, BudgetS: budget},
 		}
